@@ -21,6 +21,7 @@ class Ctx:
         self.datatypes = {}  # name -> [(ctor, [(field, sort)])]
         self.dt_order = []
         self.funcs = {}  # name -> (argsorts, ressort)
+        self.heavy_axioms = set()
         self.macros = {}  # name -> (params, ressort, body)  (define-fun, non recursive)
         self.macro_order = []
         self.axioms = []  # (name, Term)
@@ -140,7 +141,8 @@ class Ctx:
         return out
 
     # ---- SMT text
-    def preamble(self, used_consts=None, nl="exact"):
+    def preamble(self, used_consts=None, nl="exact", ab=None):
+        S = (lambda x: x) if ab is None else ab.sort
         lines = ["(set-logic ALL)"]
         if nl == "exact":
             lines.append("(define-fun nlmul ((a Int) (b Int)) Int (* a b))")
@@ -151,28 +153,35 @@ class Ctx:
             lines.append("(assert (forall ((a Int) (b Int)) (! (=> (or (= a 0) (= b 0)) (= (nlmul a b) 0)) :pattern ((nlmul a b)))))")
         for s in self.sorts:
             lines.append(f"(declare-sort {s} 0)")
+        if ab is not None:
+            lines.append("; SEQ-ABSTRACT-SORTS")
         for name in self.dt_order:
             ctors = self.datatypes[name]
             cs = " ".join(
-                "(" + c + "".join(f" ({f} {s})" for f, s in fields) + ")" for c, fields in ctors
+                "(" + c + "".join(f" ({f} {S(s)})" for f, s in fields) + ")" for c, fields in ctors
             )
             lines.append(f"(declare-datatypes (({name} 0)) (({cs})))")
         for name in self._ufuncs:
             argsorts, ressort = self.funcs[name]
-            lines.append(f"(declare-fun {name} ({' '.join(argsorts)}) {ressort})")
+            lines.append(f"(declare-fun {name} ({' '.join(S(a) for a in argsorts)}) {S(ressort)})")
         for name in self.macro_order:
             params, ressort, body = self.macros[name]
-            ps = " ".join(f"({p} {s})" for p, s in params)
-            lines.append(f"(define-fun {name} ({ps}) {ressort} {body})")
+            ps = " ".join(f"({p} {S(s)})" for p, s in params)
+            lines.append(f"(define-fun {name} ({ps}) {S(ressort)} {body})")
         for name, sort in self.consts.items():
             if used_consts is None or name in used_consts:
-                lines.append(f"(declare-const {name} {sort})")
+                lines.append(f"(declare-const {name} {S(sort)})")
         return lines
 
-    def vc_text(self, hyps, goal, defs="both", fuel=2, get_values=(), extra_axioms=True, nl="exact"):
-        """SMT-LIB text whose unsatisfiability proves  /\\ hyps => goal."""
+    def vc_text(self, hyps, goal, defs="both", fuel=2, get_values=(), extra_axioms=True, nl="exact", seq="real", keep=None):
+        """SMT-LIB text whose unsatisfiability proves  /\\ hyps => goal.  keep: optional predicate selecting hypotheses (dropping is sound)."""
+        if keep is not None:
+            hyps = [h for h in hyps if keep(h)]
         body_terms = list(hyps) + [goal]
         axioms = list(self.axioms) if extra_axioms else []
+        if extra_axioms == "light":
+            # portfolio stage: without the axioms known to make E-matching explode (transitivity etc.); dropping axioms is sound
+            axioms = [(n, t) for n, t in axioms if n not in self.heavy_axioms]
         if axioms:
             # relevance filter (dropping an axiom is always sound): an axiom is emitted only if the VC (or an axiom already
             # kept) mentions one of its keys; the default keys of an axiom are the declared function symbols it mentions
@@ -201,24 +210,46 @@ class Ctx:
             inst = self.spec_instances(body_terms + ax_terms, fuel=fuel)
         quant = []
         if defs in ("quant", "both"):
-            quant = self.spec_axioms()
+            # only the spec functions the VC (or a kept axiom, or the body of a needed spec) can mention; dropping a definition is sound
+            needed = set()
+            work = [t for t in body_terms + ax_terms]
+            while work:
+                t = work.pop()
+                for x, _ in smt.subterms(t):
+                    if x.op in self.specs and x.op not in needed:
+                        needed.add(x.op)
+                        sd = self.specs[x.op]
+                        if sd.body is not None:
+                            work.append(sd.body)
+                        for _, fct in sd.facts:
+                            work.append(fct)
+            quant = self.spec_axioms(names=needed)
         used = set()
         for t in body_terms + ax_terms + inst + quant + list(get_values):
             used.update(smt.free_consts(t))
-        lines = self.preamble(used, nl=nl)
+        ab = smt.SeqAbstraction() if seq == "abstract" else None
+        R = str if ab is None else ab.render
+        lines = self.preamble(used, nl=nl, ab=ab)
+        body = []
         for name, t in axioms:
-            lines.append(f"; axiom {name}")
-            lines.append(f"(assert {t})")
+            body.append(f"; axiom {name}")
+            body.append(f"(assert {R(t)})")
         for t in quant:
-            lines.append(f"(assert {t})")
+            body.append(f"(assert {R(t)})")
         for t in inst:
-            lines.append(f"(assert {t})")
+            body.append(f"(assert {R(t)})")
         for h in hyps:
-            lines.append(f"(assert {h})")
-        lines.append(f"(assert (not {goal}))")
+            body.append(f"(assert {R(h)})")
+        body.append(f"(assert (not {R(goal)}))")
+        if ab is not None:
+            # abstract sorts are declared before the datatypes (fields may hold sequences), their functions after everything else
+            k = lines.index("; SEQ-ABSTRACT-SORTS")
+            lines[k:k + 1] = [f"(declare-sort {x} 0)" for x in sorted(ab.sorts)]
+            lines += ab.declarations()
+        lines += body
         lines.append("(check-sat)")
         if get_values:
-            lines.append("(get-value (" + " ".join(str(v) for v in get_values) + "))")
+            lines.append("(get-value (" + " ".join(R(v) for v in get_values) + "))")
         return "\n".join(lines) + "\n"
 
 
